@@ -321,5 +321,43 @@ Definition ops_C08 : list opdef := [
            | Some n, Some flat, Some wins => match cut_windows flat wins with
                | Some wss => VL [vzss (spec_ToStrs (Z.to_nat n) wss); vzs flat] | None => VBad end
            | _, _, _ => VBad end
+       | _ => VBad end) |};
+  (* aliased arguments: b = a[:k] is a leading slice of a in the SAME memory (the executor builds a once and
+     slices it); FirstDiff(a, b, from, end) and FirstDiff(b, a, from, end) against the ordinary spec *)
+  {| op_name := "bitword.FirstDiff/alias";
+     op_run := fun a => match a with
+       | [n; s; k; from; end_] => match as_z n, as_zs s, as_z k, as_z from, as_z end_ with
+           | Some n, Some s, Some k, Some from, Some end_ =>
+               if width_ok n && str_ok s && (0 <=? k) && (k <=? zlen s) && (0 <=? from) && (-1 <=? end_)
+               then let b := firstn (Z.to_nat k) s in
+                    match FirstDiff (newBW n) s b from end_, FirstDiff (newBW n) b s from end_ with
+                    | Some x, Some y => vzs [x; y] | _, _ => VPanic end
+               else VBad
+           | _, _, _, _, _ => VBad end
+       | _ => VBad end;
+     op_spec := fun_spec (fun a => match a with
+       | [n; s; k; from; end_] => match as_z n, as_zs s, as_z k, as_z from, as_z end_ with
+           | Some n, Some s, Some k, Some from, Some end_ =>
+               let b := firstn (Z.to_nat k) s in
+               vzs [spec_FirstDiff (Z.to_nat n) s b from end_; spec_FirstDiff (Z.to_nat n) b s from end_]
+           | _, _, _, _, _ => VBad end
+       | _ => VBad end) |};
+  (* Session/reuse [n, [ws1, ws2, ...]]: ToStr of each word list out of ONE buffer that the caller re-fills for
+     the next call, then ToStrs of all lists out of buffers the caller clears afterwards; the returned strings are
+     rendered only at the end (a string that aliases the caller's words changes under it) *)
+  {| op_name := "bitword.Session/reuse";
+     op_run := fun a => match a with
+       | [n; wss] => match as_z n, as_zss wss with
+           | Some n, Some wss =>
+               if width_ok n && forallb (words_inb (Z.to_nat n)) wss
+               then match opt_all (map (ToStr (newBW n)) wss), ToStrs (newBW n) wss with
+                    | Some r1, Some r2 => VL [vzss r1; vzss r2] | _, _ => VPanic end
+               else VBad
+           | _, _ => VBad end
+       | _ => VBad end;
+     op_spec := fun_spec (fun a => match a with
+       | [n; wss] => match as_z n, as_zss wss with
+           | Some n, Some wss => VL [vzss (map (spec_ToStr (Z.to_nat n)) wss); vzss (spec_ToStrs (Z.to_nat n) wss)]
+           | _, _ => VBad end
        | _ => VBad end) |}
 ].
